@@ -6,6 +6,7 @@ import gen
 DISTS = ['shortest', 'perpendicular']
 COSTS = ['smape', 'rpd', 'rmspe', 'rmsle', 'r2']
 CONFIGS = [(d, c) for d in DISTS for c in COSTS]
+METRIC_CTOR = {'smape': 'MSmape', 'rpd': 'MRpd', 'rmspe': 'MRmspe', 'rmsle': 'MRmsle', 'r2': 'MR2'}
 T_MODES = ['obs', 'obs', 'obs_up', 'obs_dn', 'grid']
 GRID = {False: [0.5, 0.1, 0.05, 0.01, 0.001, 1e-6, 1.0, 2.0], True: [1.0, 0.999, 0.99, 0.9, 0.5, 0.1]}
 
@@ -372,7 +373,8 @@ class C04:
         ct = clist(['(%s, %s, %s)' % (cnat(l), cnat(r), fl(v)) for l, r, v in c.get('ct', [])])
         out = c.get('out')
         o = 'None' if out is None else '(Some (%s, %s))' % (cnats(out[0]), crows(out[1]))
-        return 'CRdp %s %s %s %s %s %s' % (cnat(c.get('n', len(c['points']))), cbool(c['cost'] == 'r2'), fl(c.get('t', 0.0)), dt, ct, o)
+        return 'CRdp %s %s %s %s %s %s %s' % (cnat(c.get('n', len(c['points']))), METRIC_CTOR[c['cost']], fl(c.get('t', 0.0)),
+                                              cpts(c['points']), dt, ct, o)
 
     def nontrivial_key(self, c):
         out = c.get('out')
